@@ -81,8 +81,6 @@ def fam_parse(sess):
         forms = [(sp, frac, space) for sp in (spellings(unit)[:2] if quick else spellings(unit)) for frac in (('', '.5', '.0625') if quick else ('', '.5', '.25', '.0625'))
                  for space in (('',) if quick else ('', ' '))]
         for sp, frac, space in forms:
-            if frac and unit in ('', 'b'):
-                continue        # a fraction of a byte is not a documented literal
             def run(ctx, sp=sp, frac=frac, space=space):
                 n = ctx.fresh_bv('n', 64)
                 ctx.ghost['exact_f64'] = True
@@ -135,7 +133,7 @@ def fam_parse(sess):
             sess.discharged('parse unit %r: %d spellings/forms, every n < 2^20: number x %d' % (unit, len(forms), table[unit]), family=fam, queries=paths[0])
 
 
-COERCE = {'1k': 1024, '.5k': 512, '0.5k': 512, '1.5kb': 1500, '.25mib': 262144, '.5 k': 512, '2': 2, '3kib': 3072, '.5M': 524288, '2tb': 2 * 10 ** 12}
+COERCE = {'2.0': 2, '2.0b': 2, '1.5B': 1, '1k': 1024, '.5k': 512, '0.5k': 512, '1.5kb': 1500, '.25mib': 262144, '.5 k': 512, '2': 2, '3kib': 3072, '.5M': 524288, '2tb': 2 * 10 ** 12}
 
 
 def fam_coerce(sess):
